@@ -22,6 +22,7 @@ EXPLANATION = (
     "becomes the integer microsecond count, never to an intermediate that is split further.  NOT decided: exact rational rounding "
     "of a fraction to the microsecond (float arithmetic)."
     ' Also: every branch of the pure-Python parser that accepts a fractional component records it, and each compiled rank guard refuses the rank it assigns next (repeated designators).'
+    " As built (compiled parser): RSDUR.tabulated evaluates the MIR of the compiled duration parser (parse_duration, parse_duration_number(_frac), add_duration_value, the f64 carry of a fraction into the smaller units) with pvs/mirexec.py on the table of PYDUR.tabulated - every designator, '.' and ',' fractions incl. those whose carry does not stop at a whole second, every repeated and every out-of-order designator with and without a value."
 )
 
 COMP = {"years": "years", "months": "months", "weeks": "weeks", "days": "remaining_days", "hours": "hours",
@@ -354,6 +355,9 @@ PY_DURATIONS = [   # text -> (years, months, microseconds of the rest) | None = 
     ("PT1.1234567S", (0, 0, 1123457)), ("PT0.99999951S", (0, 0, 1000000)), ("PT0.0000004S", (0, 0, 0)), ("PT2.123456789S", (0, 0, 2123457)),
     ("P0.33W", (0, 0, 199584 * 10**6)), ("P1.25W", (0, 0, (8 * 86400 + 18 * 3600) * 10**6)), ("P0.3D", (0, 0, 25920 * 10**6)), ("PT0.1H", (0, 0, 360 * 10**6)),
     ("PT0.25M", (0, 0, 15 * 10**6)), ("P2DT0.1S", (0, 0, 2 * 86400 * 10**6 + 100000)),
+    # fractions whose carry does not stop at a whole second / minute
+    ("PT0.0001H", (0, 0, 360000)), ("PT1.0001H", (0, 0, 3600 * 10**6 + 360000)), ("P0.00001D", (0, 0, 864000)), ("P0.000001W", (0, 0, 604800)), ("P0.001W", (0, 0, 604800000)),
+    ("PT0.001M", (0, 0, 60000)), ("PT0.0125M", (0, 0, 750000)), ("P1DT0.51H", (0, 0, 86400 * 10**6 + 1836 * 10**6)), ("PT0.505H", (0, 0, 1818 * 10**6)),
     ("P1.5Y", None), ("P1,5Y", None), ("P1.5M", None), ("P1Y1,5M", None), ("PT1.5H30M", None), ("PT1,5H30M", None), ("P1.5DT1H", None), ("PT1.5M1S", None),
     ("P1W1D", None), ("P1WT1H", None), ("PT1M1H", None), ("P1D1Y", None), ("P1S", None), ("1D", None), ("PT1H1H", None),
     # every designator repeated, with and without a value, and every adjacent pair out of order
@@ -454,7 +458,7 @@ def _rs_duration_tabulate(ctx) -> None:
     ctx.ob("RSDUR.tabulated", "rs:parse_duration", not bad, f"{n} duration strings evaluated on the MIR of the compiled parser: " + ("; ".join(bad[:3]) if bad else
            "every accepted string yields its exact value, every malformed one is refused"), rel)
     if not bad:
-        ctx.established(("FRACTION-SCALE", "FRACTION.round", "FRACTION.last-only", "ORDER", "ARITH"), "rs:", "RSDUR.tabulated")
+        ctx.established(("FRACTION-SCALE", "ORDER-GUARD", "ROUND-LAST"), "rs:parse_duration", "RSDUR.tabulated")
 
 
 def _py_duration_tabulate(ctx) -> None:
@@ -506,7 +510,7 @@ def _py_duration_tabulate(ctx) -> None:
     ctx.ob("PYDUR.tabulated", "_parse_iso8601_duration", not bad, f"{n} duration strings: " + ("; ".join(bad[:3]) if bad else
            "every accepted string yields its exact value, every malformed one is refused"), m.loc(fn))
     if not bad:
-        ctx.established(("FRACTION-SCALE", "FRACTION.last-only", "FRACTION.ym", "FRACTION.round", "WEEKS.exclusive", "FRACTION"), "py:", "PYDUR.tabulated")
+        ctx.established(("FRACTION-SCALE", "FRACTION.last-only", "FRACTION.ym", "FRACTION.round", "WEEKS.exclusive", "FRACTION"), "py:duration", "PYDUR.tabulated")
 
 
 def _rust_fraction_radix(ctx) -> None:
